@@ -11,7 +11,7 @@ TRUST = ("Trusted base: CPython 3.11 executing the repository's modules loaded t
 CHECKS = {
  "C06": dict(
    level="model_checking",
-   text="Bounded exhaustive symbolic execution of the real CParser over symbolic token sequences (all 132 alphabet symbols per hole, "
+   text="Bounded exhaustive symbolic execution of the real CParser over symbolic token sequences (all 134 alphabet symbols per hole, "
         "<=4 tokens at file scope and <=3 after 12 context prefixes in the quick tier; <=5/<=4 thorough): every feasible path's outcome "
         "must be FileAST, ParseError with a location prefix, or RecursionError. z3 decides path feasibility; the frontier must be empty. "
         "Character level: every string of <=4 (5) code points of Unicode, and seven accepted frames with a window of <=4 (5) free characters over a literal alphabet, through the real lexer (sre model) and the real parser.",
@@ -100,7 +100,7 @@ CHECKS = {
  "C01": dict(
    level="model_checking",
    text="Product symbolic execution: on every path the real parser and refc (ISO 9899:1999 Annex A.2 with the typedef-name rule and the syntactic constraints -pedantic-errors enforces, plus the supported C11 productions) run on the same symbolic tokens; "
-        "assertion: refc accepts => the real parser returns a FileAST. Contexts: file scope, function body, initializer, array bounds, struct body, parameter list, for header with <=3 holes over the FULL 132-symbol alphabet (thorough <=4), 2-3 full-alphabet holes right after each C99/C11 construct whose neighbours matter "
+        "assertion: refc accepts => the real parser returns a FileAST. Contexts: file scope, function body, initializer, array bounds, struct body, parameter list, for header with <=3 holes over the FULL 134-symbol alphabet (thorough <=4), 2-3 full-alphabet holes right after each C99/C11 construct whose neighbours matter "
         "(compound literal, sizeof, designator, _Atomic, _Alignas(, enumerator, [static, label position, case), and all contexts and patterns of the C02/C03/C05 checks (reduced alphabets, more holes), plus 11 rare-construct patterns whose holes range over multi-token alternatives tied by a z3 choice variable "
         "(struct member kinds incl. static assertions / anonymous members / unnamed bit-fields, adjacent string-literal pieces of every prefix, designator chains, parameter forms x function specifiers, array-parameter bounds, old-style definitions).",
    note=TRUST + "refc is the oracle of validity (hand transcription of the standard, validated each run on the repository's accepted inputs); what refc rejects or does not model carries no claim. Longer programs than the hole bounds are outside the claim.",
